@@ -79,7 +79,7 @@ TIMEOUT_PAGES = {"{{#invoke:m|spin}}", "{{#invoke:m|prespin}}"}
 
 def floors(tier):
     return {"oracle.expand.stack": 2000, "oracle.parse.stack": 200, "oracle.messages-shape": 2000,
-            "oracle.start_page.post": 500, "oracle.repeat-no-new-depth-error": 20, "sets.option_combos": 27, "counters.calls_raising(ValueError)": 5, "counters.hook-raised-and-call-returned": 20,
+            "oracle.start_page.post": 500, "oracle.repeat-no-new-depth-error": 20, "sets.option_combos": 27, "oracle.repo-tests.expand.stack": 500, "counters.calls_raising(ValueError)": 5, "counters.hook-raised-and-call-returned": 20,
             "counters.nested_contract_evals": 50, "counters.messages_checked": 500,
             "counters.calls_with_lua_error": 20, "counters.calls_with_template_loop": 20}
 
@@ -87,7 +87,10 @@ def floors(tier):
 def shards(tier, seed):
     per = {"quick": 500, "thorough": 19000}[tier]
     rep = {"quick": 12, "thorough": 120}[tier]
-    return [{"seed": seed * 1000 + i, "n": per, "repeat_pages": rep} for i in range(16)]
+    sh = [{"seed": seed * 1000 + i, "n": per, "repeat_pages": rep} for i in range(16)]
+    # one more workload: the repository's own tests (incl. the Lua-facing ones, with stand-ins) under the stack contracts
+    sh.append({"seed": seed, "kind": "repo-tests"})
+    return sh
 
 
 class Mon:
@@ -224,7 +227,30 @@ def sig_of(p, opt):
     return p[0]
 
 
+def run_repo_tests_shard(spec):
+    from vf.core.repotests import run_repo_tests
+    obs = Obs()
+    d = run_repo_tests()
+    if d is None:
+        obs.inconclusive.append("repository tests under the monitor plugin produced no report")
+        return obs
+    ev = d.get("evals", {})
+    obs.count("repo-tests.tests-run", d.get("tests", 0))
+    obs.check("repo-tests.expand.stack", ev.get("expand.stack", 0))
+    obs.check("repo-tests.parse.stack", ev.get("parse.stack", 0))
+    obs.count("repo-tests.messages_checked", d.get("msg_checked", 0))
+    for name, dd, test in d.get("contract_fails", []):
+        if name.endswith(".stack"):
+            obs.violation(name + "-contract", "%s (during %s)" % (dd, test), {"page": "", "opt": {}, "gen": "repo-tests", "test": test})
+    for name, dd, test in d.get("msg_fails", []):
+        obs.violation(name, "%s (during %s)" % (dd, test), {"page": "", "opt": {}, "gen": "repo-tests", "test": test})
+    obs.case("repo-tests", nontrivial=True, sample={"gen": "repo-tests", "tests": d.get("tests"), "stack-contract-evaluations": ev})
+    return obs
+
+
 def run_shard(spec):
+    if spec.get("kind") == "repo-tests":
+        return run_repo_tests_shard(spec)
     import wikitextprocessor.core as core
     obs = Obs()
     rng = random.Random(spec["seed"])
